@@ -215,10 +215,41 @@ def randcs():
     return out
 
 
+# comparison operators of the search loops: they decide which end of each interval is closed — an event of
+# probability ~2^-53 per draw that no execution will ever hit, so they are tied by regeneration instead
+CMP_SITES = [
+    ("pickOne(v,w,replace)", "src/Bpp/Numeric/Random/RandomTools.h", r"static T pickOne\(std::vector<T>& v, std::vector<double>& w, bool replace = false\)\s*\{.*?if \(prob (<=?|>=?) sumw\[i\]\)"),
+    ("pickOne(const v,const w)", "src/Bpp/Numeric/Random/RandomTools.h", r"static T pickOne\(const std::vector<T>& v, const std::vector<double>& w\)\s*\{.*?if \(prob (<=?|>=?) sumw\[i\]\)"),
+    ("pickFromCumSum", "src/Bpp/Numeric/Random/RandomTools.h", r"static size_t pickFromCumSum\(const std::vector<double>& w\)\s*\{.*?if \(prob (<=?|>=?) w\[pos\]\)"),
+    ("pickFromCumSum.loop", "src/Bpp/Numeric/Random/RandomTools.h", r"static size_t pickFromCumSum\(const std::vector<double>& w\)\s*\{.*?while \(pos (<=?|>=?) w\.size\(\) - 1\)"),
+    ("getSample.tooLong", "src/Bpp/Numeric/Random/RandomTools.h", r"bool replace = false\)\s*\{\s*if \(vout\.size\(\) (<=?|>=?) vin\.size\(\) && !replace\)\s*throw IndexOutOfBoundsException\(\"RandomTools::getSample: size"),
+    ("getSampleW.tooLong", "src/Bpp/Numeric/Random/RandomTools.h", r"bool replace = false\)\s*\{\s*if \(vout\.size\(\) (<=?|>=?) vin\.size\(\) && !replace\)\s*throw IndexOutOfBoundsException\(\"RandomTools::getSample \(with weights\)"),
+    ("randMultinomial", "src/Bpp/Numeric/Random/RandomTools.cpp", r"RandomTools::randMultinomial\(.*?if \(r (<=?|>=?) cumprob\)"),
+    ("AbstractDiscreteDistribution::rand", "src/Bpp/Numeric/Prob/AbstractDiscreteDistribution.cpp", r"AbstractDiscreteDistribution::rand\(\) const\s*\{.*?if \(r (<=?|>=?) cumprob\)"),
+    ("hmm.first", "src/Bpp/Numeric/Hmm/AbstractHmmTransitionMatrix.cpp", r"prob -= eqFreq_\[i\];\s*if \(prob (<=?|>=?) 0\)"),
+    ("hmm.next", "src/Bpp/Numeric/Hmm/AbstractHmmTransitionMatrix.cpp", r"prob -= row\[i\];\s*if \(prob (<=?|>=?) 0\)"),
+    ("ContingencyTableTest.count", "src/Bpp/Numeric/Stat/ContingencyTableTest.cpp", r"if \(stat_rep (<=?|>=?) statistic_\)\s*count\+\+;"),
+]
+
+
+def comparisons():
+    out = []
+    cache = {}
+    for site, f, pat in CMP_SITES:
+        if f not in cache:
+            cache[f] = strip(open(os.path.join(REPO, f)).read())
+        m = re.search(pat, cache[f], flags=re.S)
+        if not m:
+            raise Bad("comparison site %s not found in %s" % (site, f))
+        out.append((site, m.group(1)))
+    return out
+
+
 def main():
     try:
         ws = wrappers()
         rcs = randcs()
+        cmps = comparisons()
     except Bad as e:
         print("translator no longer understands the source: %s" % e)
         sys.exit(1)
@@ -234,6 +265,11 @@ def main():
     lines.append(",\n".join('  ⟨"%s", "%s", [%s]⟩' % (d, c, ", ".join(a)) for (d, c, a) in rcs))
     lines.append("]")
     lines.append("")
+    lines.append("/-- the comparison operator at each search loop / guard of the modelled code -/")
+    lines.append("def comparisons : List (String × String) := [")
+    lines.append(",\n".join('  ("%s", "%s")' % (a, b) for (a, b) in cmps))
+    lines.append("]")
+    lines.append("")
     lines.append("end Bpp.Generated")
     txt = "\n".join(lines) + "\n"
     os.makedirs(os.path.dirname(OUT), exist_ok=True)
@@ -241,7 +277,8 @@ def main():
     if old != txt:
         open(OUT, "w").write(txt)
     print("wrappers: " + "; ".join("%s(%s) -> %s[%s]" % (n, ",".join(ps), fam, ", ".join(args)) for (n, ps, fam, args) in ws)
-          + " | randC: " + "; ".join("%s -> %s[%s]" % (d, c, ", ".join(a)) for (d, c, a) in rcs))
+          + " | randC: " + "; ".join("%s -> %s[%s]" % (d, c, ", ".join(a)) for (d, c, a) in rcs)
+          + " | comparisons: " + "; ".join("%s %s" % (a, b) for (a, b) in cmps))
 
 
 if __name__ == "__main__":
